@@ -177,7 +177,9 @@ var nonNilMakers = map[string]bool{
 
 // errKind classifies an error-typed value syntactically: "nil", "non" (non-nil
 // by construction) or "dyn".
-func errKind(v ssa.Value) string {
+func errKind(v ssa.Value) string { return errKindSeen(v, map[ssa.Value]bool{}) }
+
+func errKindSeen(v ssa.Value, seen map[ssa.Value]bool) string {
 	switch v := v.(type) {
 	case *ssa.Const:
 		if v.Value == nil {
@@ -196,14 +198,24 @@ func errKind(v ssa.Value) string {
 			return "non"
 		}
 	case *ssa.Phi:
+		if seen[v] {
+			return "dyn" // a loop-carried value: no more is known about it than about its other inputs
+		}
+		seen[v] = true
 		k := ""
 		for _, e := range v.Edges {
-			ek := errKind(e)
+			if e == ssa.Value(v) {
+				continue
+			}
+			ek := errKindSeen(e, seen)
 			if k == "" {
 				k = ek
 			} else if k != ek {
 				return "dyn"
 			}
+		}
+		if k == "" {
+			return "dyn"
 		}
 		return k
 	}
